@@ -412,6 +412,11 @@ pub fn main(args: &[String]) {
     println!("{}", json!({"scenarios": scens.len(), "repairs": nrep}));
 }
 
+/// name of file i of the "many" engine: long enough for the index of 5 000 files to exceed 1 MiB
+fn many_name(i: usize) -> String {
+    format!("dir{}/{}-file-{i}", i % 17, "n".repeat(190))
+}
+
 /// Engine "many": COUNTS of files rather than sizes (thousands of small files, added one after another): the
 /// round trip (C01) and the repair of the intact archive and of one cut (C05, C02).  args: mode out.json N
 pub fn main_many(args: &[String]) {
@@ -420,14 +425,18 @@ pub fn main_many(args: &[String]) {
     let n: usize = args[2].parse().unwrap();
     let mut viol: Vec<Value> = vec![];
     let mut done = vec![];
+    let only: Vec<String> = args.get(3).map(|s| s.split(',').map(str::to_string).collect()).unwrap_or_default();
     for st in ["raw", "comp+enc", "enc"] {
+        if !only.is_empty() && !only.iter().any(|o| o == st) {
+            continue;
+        }
         let par = Par::from_json(&json!({"stack": st, "seed": 9, "level": 1}));
         let content = |i: usize| -> Vec<u8> { archive::file_bytes(&par, (i % 251) as u64, i % 13, i % 29) };
         let r = guarded(|| -> Result<(), (String, String)> {
             let mut w = ArchiveWriter::from_config(Vec::new(), archive::writer_config(&par)).map_err(|e| ("create-error".to_string(), format!("{e:?}")))?;
             for i in 0..n {
                 let c = content(i);
-                w.add_file(&format!("dir{}/file-{i}", i % 17), c.len() as u64, &c[..]).map_err(|e| ("valid-call-refused".to_string(), format!("add_file #{i}: {e:?}")))?;
+                w.add_file(&many_name(i), c.len() as u64, &c[..]).map_err(|e| ("valid-call-refused".to_string(), format!("add_file #{i}: {e:?}")))?;
             }
             w.finalize().map_err(|e| ("valid-call-refused".to_string(), format!("finalize: {e:?}")))?;
             let bytes = w.into_raw();
@@ -463,12 +472,24 @@ pub fn main_many(args: &[String]) {
                     return Err(("list-mismatch".into(), format!("{} names listed, {n} added", names.len())));
                 }
                 for i in (0..n).step_by(37).chain([n - 1]) {
-                    let name = format!("dir{}/file-{i}", i % 17);
+                    let name = many_name(i);
                     let mut got = vec![];
                     let mut f = rd.get_file(name.clone()).map_err(|e| ("read-error".to_string(), format!("{name}: {e:?}")))?.ok_or(("list-mismatch".to_string(), format!("{name} missing")))?;
                     f.data.read_to_end(&mut got).map_err(|e| ("read-error".to_string(), format!("{name}: {e:?}")))?;
                     if got != content(i) || f.size != got.len() as u64 {
                         return Err(("content-mismatch".into(), name));
+                    }
+                }
+                // linear extraction (C12) of everything, then of a subset taken at the end of the archive
+                for subset in [false, true] {
+                    let chosen: Vec<String> = if subset { (0..n).rev().step_by(1009).map(many_name).collect() } else { names.clone() };
+                    let mut export: HashMap<&String, Vec<u8>> = chosen.iter().map(|nm| (nm, Vec::new())).collect();
+                    mla::helpers::linear_extract(&mut rd, &mut export).map_err(|e| ("linear-error".to_string(), format!("{e:?}")))?;
+                    for (nm, got) in &export {
+                        let i: usize = nm.rsplit('-').next().and_then(|x| x.parse().ok()).ok_or(("list-mismatch".to_string(), (*nm).clone()))?;
+                        if got != &content(i) {
+                            return Err(("linear-content-mismatch".into(), format!("{} (subset={subset}): {} bytes delivered, {} expected", &nm[nm.len().saturating_sub(24)..], got.len(), content(i).len())));
+                        }
                     }
                 }
                 return Ok(());
